@@ -160,6 +160,11 @@ class BloomDriver:
             force = kind == "addf" and self.kind == "expanding"
             self.nops += 1
             alt = self.nops % 3 == 0  # every third insertion goes through the precomputed-hash entry point
+            if self.kind != "expanding" and self.nops % 4 == 1:
+                # a read-only hashes() call for ANOTHER depth right before the key is added (a caller sizing a second, deeper
+                # filter): whatever the filter remembers of it must not leak into the add
+                ctx.call(anyo, o.hashes, k, o.number_hashes + 1 + self.nops % 3)
+                self.events.add("hashes_other_depth_before_add")
             if self.kind == "expanding":
                 exp_before = o.expansions
                 if alt:
@@ -191,7 +196,9 @@ class BloomDriver:
                             self.shadow = self.B(self.est + 7, self.fpr, hash_function=self.hf)
                         except Exception:  # noqa  parameters the library refuses for the other size: no second filter in this case
                             self.shadow = None
-                    if self.shadow is not None:
+                    # (the other size may need one hash more; a depth-dependent strategy's list is that key only at its own depth)
+                    if self.shadow is not None and len(hs) >= self.shadow.number_hashes and \
+                            (self.case["hash"] != "depthdep" or len(hs) == self.shadow.number_hashes == o.number_hashes):
                         ctx.call(anyo, self.shadow.add_alt, hs)
                         r = ctx.call(anyo, self.shadow.check, k)
                         ctx.check(self._o("member"), r is True, lambda: f"second live filter (est {self.est + 7}) fed the SAME hash list after "
